@@ -423,6 +423,16 @@ func variantAct(a *Act, k int, public bool) *Act {
 	return &c
 }
 
+func homonymA(x string) (interface{}, reflect.Type) {
+	type label string
+	return label(x), reflect.TypeOf(label(""))
+}
+
+func homonymB(x string) interface{} {
+	type label string
+	return label(x)
+}
+
 func genQ02(w *bufio.Writer, rng *prng, n int, depth int) {
 	q := &qw{w}
 	// what a caller does with the slices handed out by the marker accessors is its own business
@@ -440,6 +450,24 @@ func genQ02(w *bufio.Writer, rng *prng, n int, depth int) {
 			b := string(redact.Sprintf(d, map[string]RegInt{"swordfi": 3, "y": 3}))
 			q.eq("C02", "Redact() of two instantiations of the same shape differ", fn("redact", lit(a)), fn("redact", lit(b)), fmt.Sprintf("map[string]RegInt under %q: %q vs %q", d, a, b))
 			q.eq("C05", "keys of a map whose value type is registered are still enveloped", fn("delenv", lit(string(redact.Sprintf(d, map[string]RegInt{"k": 3})))), fn("delenv", lit(string(redact.Sprintf(d, map[Blank]RegInt{{"k"}: 3})))), d)
+		}
+		setRegistry(false)
+	}
+	// a registered type has a namesake (same package path and name, another type): only the
+	// registered one is safe
+	{
+		redact.VerifResetSafeTypes()
+		_, ta := homonymA("")
+		redact.RegisterSafeType(ta)
+		for _, d := range []string{"%v", "%s", "%q", "%x", "%d", "%+v"} {
+			mk := func(x string) string {
+				hb := homonymB(x)
+				return string(redact.Sprintf(d+"|"+d+"|"+d, hb, []interface{}{hb}, map[interface{}]int{hb: 1}))
+			}
+			a, b := mk("hunter2"), mk("swordfi")
+			q.eq("C02", "Redact() of two instantiations of the same shape differ", fn("redact", lit(a)), fn("redact", lit(b)), fmt.Sprintf("namesake of a registered type under %q: %q vs %q", d, a, b))
+			ha, _ := homonymA("pub")
+			q.eq("C05", "the registered type itself is safe", lit(string(redact.Sprintf(d, ha))), fn("safelit", lit(fmt.Sprintf(d, ha))), d)
 		}
 		setRegistry(false)
 	}
@@ -2006,6 +2034,10 @@ func (s sfNested) SafeFormat(p redact.SafePrinter, _ rune) { p.Printf("n<%v>", s
 func c12probes() []probeFn {
 	e := errors.New("probe-err")
 	return []probeFn{
+		// first, so that it runs right after the history: special float values under every sign flag
+		{"NaN/Inf signs", func() string {
+			return string(redact.Sprintf("% f|% e|% g|%+f|%f|% 8.2f|% v|% f|% v", math.NaN(), math.NaN(), math.NaN(), math.NaN(), math.NaN(), math.NaN(), complex(math.NaN(), 1), math.Inf(1), float32(math.NaN())))
+		}},
 		{"Sprintf %v state", func() string { return string(redact.Sprintf("%v", wfmt{})) }},
 		{"Sprint state", func() string { return string(redact.Sprint(wfmt{}, 1)) }},
 		{"Sprintf %d str", func() string { return string(redact.Sprintf("%d %s", 7, "x")) }},
@@ -3059,6 +3091,42 @@ func genQ01(w *bufio.Writer, rng *prng, n int, depth int) {
 	q := &qw{w}
 	setRegistry(false)
 	setHook(nil)
+	// a panic that unwinds through a nested Print/Printf (the report of the first panic panics too)
+	// after the nested printer has continued the enclosing envelope
+	for _, pre := range []string{"", "a", "ab\n", "‹"} {
+		for _, preSafe := range []bool{false, true} {
+			for fi, first := range []interface{}{"b", 12, redact.Safe("s"), strings.Repeat("long", 30), "x\ny", redact.RedactableString("‹r›")} {
+				for nested := 0; nested < 2; nested++ {
+					pre, preSafe, first, nested := pre, preSafe, first, nested
+					sf := sfFunc(func(p redact.SafePrinter) {
+						if pre != "" {
+							if preSafe {
+								p.SafeString(redact.SafeString(pre))
+							} else {
+								p.UnsafeString(pre)
+							}
+						}
+						bad := anyStringer{func() string { panic(anyStringer{func() string { panic("inner") }}) }}
+						if nested == 0 {
+							p.Printf("%v %v", first, bad)
+						} else {
+							p.Print(first, bad)
+						}
+					})
+					for _, outer := range []string{"x=%v.", "%v", "%v %s", "%s%v"} {
+						var out string
+						pn, _ := try(func() { out = string(redact.Sprintf(outer, sf, "tail")) })
+						info := fmt.Sprintf("SafeFormat writes %q (safe=%v) then nested call %d with operand %d and a doubly panicking Stringer, under %q: %q", pre, preSafe, nested, fi, outer, out)
+						q.truth("C11", "a contained panic escaped", !pn, info)
+						if !pn {
+							q.pred("C01", "output after a panic unwinding through a nested printer is not well-formed", "redactable", lit(out), info)
+							q.pred("C03", "output after a panic unwinding through a nested printer is not line-safe", "linesafe", lit(out), info)
+						}
+					}
+				}
+			}
+		}
+	}
 	// Join and EscapeBytes results
 	for i := 0; i < n/4+1; i++ {
 		g := &vgen{rng: rng, hostile: true}
